@@ -74,6 +74,34 @@ func allSeqs() []int {
 	return l
 }
 
+// queueLarge samples the queue mirror on every large sequence space (17..255), where the 8-bit
+// arithmetic of the real queue can wrap: windows that start at 0, end at s-1, are full, are
+// wrapped, plus random ones; sequence numbers at and around both ends.
+func queueLarge(r *Recorder, class string) {
+	rng := newRand(777)
+	for s := 17; s <= 255; s++ {
+		pairs := [][2]int{{0, s - 1}, {0, s / 2}, {s - 1, 0}, {s / 2, s/2 - 1}, {1, 0}, {s - 2, s - 1}, {s - 1, s - 2}}
+		for i := 0; i < pick(3, 12); i++ {
+			pairs = append(pairs, [2]int{rng.Intn(s), rng.Intn(s)})
+		}
+		q := gbn.VNewQueue(uint8(s))
+		for _, bt := range pairs {
+			base, top := bt[0], bt[1]
+			q.Set(uint8(base), uint8(top))
+			r.Emit(fmt.Sprintf("q.size %d %d %d", s, base, top), fmt.Sprint(q.Size()))
+			want := (top - base + s) % s
+			if int(q.Size()) != want {
+				r.Violate("C09/size-wrong", fmt.Sprintf("size() on s=%d base=%d top=%d is %d, the window holds %d packets", s, base, top, q.Size(), want),
+					map[string]int{"s": s, "base": base, "top": top})
+			}
+			for _, seq := range []int{base, top, (top + s - 1) % s, (base + 1) % s, rng.Intn(s), s, 255} {
+				queueCase(r, q, s, base, top, seq, class)
+			}
+		}
+		q.Stop()
+	}
+}
+
 func queueMisc(r *Recorder) {
 	for s := 1; s <= 255; s++ {
 		for _, top := range []int{0, 1, s / 2, s - 1} {
@@ -225,6 +253,7 @@ func TestC01(t *testing.T) {
 	defer r.Close(t)
 	// (A) queue mirror vs real queue
 	queueDiff(r, 2, pick(8, 16), allSeqs(), "queue-exh")
+	queueLarge(r, "queue-large")
 	queueMisc(r)
 	// (B) trace inclusion + API oracle
 	scs := c01Scenarios()
